@@ -216,6 +216,15 @@ def run(tier):
     quick = tier == "quick"
     loads = impl.loader(expand_includes=False)
     dumps = impl.dumper()
+    if True:
+        # (M) exhaustive: the Writer contract is balanced and separate_complex_types content-preserving on every
+        # document of <= 2 builder actions over the whole vocabulary
+        cfg = tlc.cfg_text(next_="WNext", constants={"MaxDepth": 5, "MaxSteps": 2 if quick else 3, "Ids": {1}, "StepPosts": False, "Mode": "all"},
+                           invariants=["WriterBalanced", "SepSameContent"]) + "CONSTANT Cases <- CasesOne\n"
+        r = tlc.run("Writer", cfg, tag="writer_mc", workers=16, timeout=3000)
+        ck.add_tlc("writer_mc", r)
+        if r.violated:
+            ck.violation("C03|model|%s" % r.violated, "Writer model property %s violated" % r.violated, {"trace": tlc.error_trace(r)})
     sl = writer_slots("wslots", ck)
     conc = concretise.Concretiser(seed, avoid_quote='"', no_multiline=False)
     selftest(conc, sl[:400])
